@@ -32,6 +32,7 @@ class FakeResponse:
         self._body = body
         self.closed = stream is None
         self.content = FakeContent(stream) if stream is not None else None
+        self.closed_ev = None       # set by close(): a streaming body that is waiting for data must end like a closed connection
 
     async def json(self):
         if isinstance(self._body, (dict, list)):
@@ -48,6 +49,15 @@ class FakeResponse:
 
     def close(self):
         self.closed = True
+        if self.closed_ev is not None:
+            self.closed_ev.set()
+
+    def attach_stream(self, gen):
+        import asyncio as _asyncio
+        self.closed = False
+        self.closed_ev = _asyncio.Event()
+        self.content = FakeContent(gen)
+        return self
 
     def release(self):
         self.closed = True
